@@ -23,9 +23,15 @@ RULE = ("maps are random Kraus families (A_i, B_i) with Gaussian-integer entries
         "non-CP) of every rank 1..5 and every input/output row and column dimension 1..4 (quick: sampled; thorough: full grid), given in every "
         "list form the isinstance cascade accepts (flat, column [[K]..], row [[K1..Kr]], pairs, wider nestings) and as Choi matrix; inputs X are "
         "random Gaussian-integer matrices (non-symmetric, complex); float arithmetic on such data is exact, so equality is demanded. "
-        "partial_channel: 2-3 subsystems with dims <= 3, every target position, square and rectangular dim arrays, Kraus and Choi form. "
+        "partial_channel: 2-3 subsystems with dims <= 3, every target position, square and rectangular dim arrays, Kraus and Choi form; dim omitted on square operators (all forms) "
+        "and on non-square operators whose row and column counts are perfect squares (4x9, 9x4, 4x16, 16x4, 9x16, 16x9; pairs and Choi form, sys 1 and 2, sys omitted). "
         "choi_to_kraus: Choi matrices Hermitian-PSD / Hermitian-indefinite / non-Hermitian, square and rectangular in/out dims, exact residual of the "
-        "defining relation <= 1e-8*max(1,|J|max) and #Kraus <= exact rank; chains Kraus->Choi->Kraus->Choi. A case is non-trivial when input and output "
+        "defining relation <= 1e-8*max(1,|J|max) and #Kraus <= exact rank; in addition the factors that np.linalg.eigh / np.linalg.svd return inside the call are recorded "
+        "(in-process wrapper) and handed as exact rationals, together with the table of the doubles np.sqrt(.) of the eigen/singular values, to the Lean mirror model of the "
+        "post-processing (dim decoding, Hermitian / PSD / general branch, tolerance filter, column-major unvec, conjugation, signs, flat-vs-pairs form): the returned list must have "
+        "the model's form and length, every operator within 1e-12*max(1,|entry|max) of the model's (one rounding of sqrt*entry); a value mismatch while the defining relation holds "
+        "is reported as broken correspondence, not as a failing input; chains Kraus->Choi->Kraus->Choi. kraus_to_choi is called with sys=2 and sys=1 (sum_ij Phi(E_ij) (x) E_ij). "
+        "A case is non-trivial when input and output "
         "spaces both have more than one entry and the rank/data are generic; distinct = hash of (function, form, dims, rank, kind, dtype). "
         "Not generated (outside the quantifier, degenerate; observed to misbehave and reported): Choi matrices that are row or column vectors (maps "
         "between spaces of kets: swap/permute_systems takes its vector branch), Hermitian Choi matrices declared on a non-square operator space in "
@@ -37,6 +43,7 @@ RULE = ("maps are random Kraus families (A_i, B_i) with Gaussian-integer entries
 ASSUMPTIONS = [
     "two different polynomial maps of degree <= 3 agree on a random point of a box of side 2^6 per coordinate with probability <= 3/2^6 per case (Schwartz-Zippel); many independent cases per configuration class, and the thorough tier determines maps on the full E_ij basis",
     "choi_to_kraus is judged by the exact residual of its defining relation with tolerance 1e-8*scale (LAPACK eigh/svd)",
+    "the LAPACK factors and the correctly rounded doubles np.sqrt(x) are inputs of the choi_to_kraus model (not modelled); on Gaussian-integer Choi matrices is_hermitian's np.allclose decides exact Hermiticity (entries differ by >= 1 or not at all)",
 ]
 
 BITS = 6
@@ -120,6 +127,9 @@ class Z:
     def vecF(self):
         return Z(self.re.reshape(-1, 1, order="F"), self.im.reshape(-1, 1, order="F"))
 
+    def vecR(self):
+        return Z(self.re.reshape(-1, 1), self.im.reshape(-1, 1))
+
 
 def spec_apply(As, Bs, X):
     """sum_i A_i X B_i^dagger in exact arithmetic"""
@@ -135,6 +145,15 @@ def spec_choi(As, Bs):
     out = None
     for A, B in zip(As, Bs):
         t = A.vecF() @ B.vecF().ct()
+        out = t if out is None else out + t
+    return out
+
+
+def spec_choi_sys1(As, Bs):
+    """sum_ij Phi(E_ij) (x) E_ij = sum_k vec_r(A_k) vec_r(B_k)^dagger with rows indexed (a, i) -> a*din + i  (kraus_to_choi(., sys=1))"""
+    out = None
+    for A, B in zip(As, Bs):
+        t = A.vecR() @ B.vecR().ct()
         out = t if out is None else out + t
     return out
 
@@ -246,6 +265,121 @@ def impure(ctx, guard, fn, info):
     return False
 
 
+# ------------------------------------------------------------------------------------------------ choi_to_kraus: LAPACK factors -> Lean model
+
+class LapackTap:
+    """records what np.linalg.eigh / np.linalg.svd return while toqito runs (in-process wrapper, restored on exit; no source hook).
+    The factors are the inputs of the Lean model `choiToKraus` (Toq/Model/ChannelOpsExtra.lean), which mirrors everything else."""
+
+    def __enter__(self):
+        self.calls = []
+        self._eigh, self._svd = np.linalg.eigh, np.linalg.svd
+        tap = self
+
+        def eigh(a, *args, **kw):
+            out = tap._eigh(a, *args, **kw)
+            try:
+                tap.calls.append(("eigh", np.array(out[0], copy=True), np.array(out[1], copy=True)))
+            except Exception:
+                pass
+            return out
+
+        def svd(a, *args, **kw):
+            out = tap._svd(a, *args, **kw)
+            try:
+                if not isinstance(out, np.ndarray) and len(out) == 3:
+                    tap.calls.append(("svd", np.array(out[0], copy=True), np.array(out[1], copy=True), np.array(out[2], copy=True)))
+            except Exception:
+                pass
+            return out
+
+        np.linalg.eigh, np.linalg.svd = eigh, svd
+        return self
+
+    def __exit__(self, *exc):
+        np.linalg.eigh, np.linalg.svd = self._eigh, self._svd
+        return False
+
+
+def qj(x):
+    """double -> exact rational in the driver's JSON form (integer or [num, den])"""
+    f = Fraction(float(x))
+    return int(f) if f.denominator == 1 else [f.numerator, f.denominator]
+
+
+def jmatq(a):
+    a = np.asarray(a)
+    if a.ndim != 2:
+        raise ValueError("2-d expected")
+    z = a.astype(np.complex128)
+    return {"r": a.shape[0], "c": a.shape[1], "re": [qj(v) for v in z.real.reshape(-1)], "im": [qj(v) for v in z.imag.reshape(-1)]}
+
+
+def qfrac(v):
+    return Fraction(v[0], v[1]) if isinstance(v, list) else Fraction(v)
+
+
+def op_close(impl_op, m, rel=Fraction(1, 10**12)):
+    """implementation's float operator against the model's exact rational one: max |difference| <= rel * max(1, |model|max) (one rounding of
+    `np.sqrt(.) * entry` per entry is all that separates them)"""
+    a = np.asarray(impl_op)
+    if a.ndim != 2 or list(a.shape) != [m["r"], m["c"]]:
+        return False
+    z = a.astype(np.complex128).reshape(-1)
+    scale = Fraction(1)
+    worst = Fraction(0)
+    for k in range(z.size):
+        mr, mi = qfrac(m["re"][k]), qfrac(m["im"][k])
+        scale = max(scale, abs(mr), abs(mi))
+        if not (np.isfinite(z[k].real) and np.isfinite(z[k].imag)):
+            return False
+        worst = max(worst, abs(Fraction(float(z[k].real)) - mr), abs(Fraction(float(z[k].imag)) - mi))
+    return worst <= rel * scale
+
+
+def c2k_model_compare(ctx, info, J, dim_js, tap_calls, kraus, tol=1e-9, atol=1e-8):
+    """tie of the post-processing of choi_to_kraus to the Lean mirror model: same LAPACK factors in, same list out.
+    Returns (verdict, detail): verdict in {"agree", "form", "values", "model-reject", "uncaptured"}"""
+    herm_exact = J.shape[0] == J.shape[1] and bool(np.all(J == J.conj().T))
+    eig = next((c for c in tap_calls if c[0] == "eigh"), None)
+    svd = next((c for c in tap_calls if c[0] == "svd"), None)
+    captured = True
+    if herm_exact and eig is None:
+        captured = False
+        w, v = np.linalg.eigh(J)
+        eig = ("eigh", w, v)
+    if not herm_exact and svd is None:
+        captured = False
+        u, sv, vh = np.linalg.svd(J, full_matrices=False)
+        svd = ("svd", u, sv, vh)
+    args = {"J": jmatq(J), "tol": qj(tol), "atol": qj(atol), "dim": dim_js, "eigh": None, "svd": None, "sqrt": []}
+    if herm_exact:
+        args["eigh"] = {"evals": [qj(x) for x in eig[1]], "V": jmatq(eig[2])}
+        args["sqrt"] = [[qj(abs(x)), qj(np.sqrt(abs(x)))] for x in eig[1]]
+    else:
+        args["svd"] = {"U": jmatq(svd[1]), "S": [qj(x) for x in svd[2]], "Vh": jmatq(svd[3])}
+        args["sqrt"] = [[qj(x), qj(np.sqrt(x))] for x in svd[2] if x >= 0]
+    model = ctx.lean().ask("c04_choi_to_kraus", args)
+    if "reject" in model:
+        return "model-reject", model["reject"]
+    out = model["out"]
+    branch = ("psd" if model["psd"] else "herm") if model["hermitian"] else "svd"
+    ctx.count("choi_to_kraus-model/branch=" + branch + ("" if captured else "/factors-recomputed"))
+    flat_impl = not (len(kraus) and isinstance(kraus[0], list))
+    if flat_impl != (out["tag"] == "flat"):
+        return "form", f"implementation returns {'a flat list' if flat_impl else 'pairs'}, model ({branch} branch) {'a flat list' if out['tag'] == 'flat' else 'pairs'}"
+    if len(kraus) != len(out["ops"]):
+        return "values", f"{len(kraus)} operators returned, model ({branch} branch) keeps {len(out['ops'])}"
+    for k, (got, want) in enumerate(zip(kraus, out["ops"])):
+        if flat_impl:
+            good = op_close(got, want)
+        else:
+            good = len(got) == 2 and len(want) == 2 and op_close(got[0], want[0]) and op_close(got[1], want[1])
+        if not good:
+            return ("values" if captured else "uncaptured"), f"operator {k} differs from the model's ({branch} branch)"
+    return "agree", branch
+
+
 # ------------------------------------------------------------------------------------------------ checks
 
 def check_apply(ctx, din, dout, r, cp, cplx, extra_form=None, basis=None, seed=None):
@@ -337,6 +471,31 @@ def check_apply(ctx, din, dout, r, cp, cplx, extra_form=None, basis=None, seed=N
         J = implJ[1]
         if LA is As and (LB is Bs or LB is As):
             J_ref = J
+        # ---- Kraus -> Choi with sys=1 (map applied to the first half: sum_ij Phi(E_ij) (x) E_ij)
+        desc2b = dict(base, fn="kraus_to_choi", form=name, sys=1)
+        ctx.case(desc2b, nontriv, f"kraus_to_choi/sys=1/{name}")
+        pobj3 = present_obj(prng, obj)
+        guard = Pure(pobj3)
+        implJ1 = call(kraus_to_choi, pobj3, 1)
+        modelJ1 = ctx.lean().ask("c04_kraus_to_choi", {"phi": jphi, "sys": 1})
+        oracleJ1 = spec_choi_sys1([Z.of(a) for a in LA], [Z.of(b) for b in LB])
+        info2b = {"case_seed": seed, "function": "kraus_to_choi", "args": desc2b, "phi": jphi, "sys": 1, "theorem": "krausToChoi_sys1_eq_spec",
+                  "presentation": {"phi": describe(pobj3)}}
+        if impure(ctx, guard, f"kraus_to_choi[{name}, sys=1]", info2b):
+            ok = False
+        if "reject" in modelJ1 or implJ1[0] != "ok":
+            ok = False
+            ctx.violation(f"kraus_to_choi[{name}, sys=1]: {'model rejects' if 'reject' in modelJ1 else 'implementation ' + implJ1[0]} on a valid call",
+                          dict(info2b, impl=str(implJ1)[:300], model=str(modelJ1)[:200]))
+        else:
+            try:
+                gm1, gs1 = mat_eq(implJ1[1], modelJ1), z_eq_arr(oracleJ1, implJ1[1])
+            except NotExact:
+                gm1 = gs1 = False
+            if not (gm1 and gs1):
+                ok = False
+                ctx.violation(f"kraus_to_choi[{name}, sys=1]: Choi matrix differs from sum_ij Phi(E_ij) (x) E_ij (model agree={gm1}, oracle agree={gs1})",
+                              dict(info2b, impl=safe_jmat(implJ1[1]), model=modelJ1))
         # ---- Choi form of the same map on the same input
         if min(J.shape) < 2:
             ctx.count("skipped/vector-shaped-choi")
@@ -426,7 +585,8 @@ def check_choi_to_kraus(ctx, din, dout, kind, cplx, dim_form="mat", seed=None):
             "presentation": {"J": describe(pJ), "dim": describe(pdim)}}
     zJ = Z.of(J)
     guard = Pure(pJ, dim=pdim)
-    impl = call(choi_to_kraus, pJ, dim=pdim)
+    with LapackTap() as tap:
+        impl = call(choi_to_kraus, pJ, dim=pdim)
     if impure(ctx, guard, "choi_to_kraus", info):
         return False
     if impl[0] != "ok":
@@ -449,6 +609,21 @@ def check_choi_to_kraus(ctx, din, dout, kind, cplx, dim_form="mat", seed=None):
     if n > rk:
         ok = False
         ctx.violation(f"choi_to_kraus: {n} Kraus operators returned for a Choi matrix of rank {rk}", dict(info, n_kraus=n, rank=rk))
+    # ---- the post-processing against the Lean mirror model (same LAPACK factors in, same list out)
+    dim_js = None if dim is None else (dim if isinstance(dim, int) else np.asarray(dim).tolist())
+    verdict, detail = c2k_model_compare(ctx, info, J, dim_js, tap.calls, kraus)
+    ctx.count("choi_to_kraus-model/" + verdict)
+    minfo = dict(info, theorem="choiToKraus_general_branch / choiToKraus_hermitian_branch / choiToKraus_psd_branch", model_detail=detail)
+    if verdict == "model-reject":
+        ok = False
+        ctx.violation(f"choi_to_kraus: model rejects a well-formed call ({detail})", minfo)
+    elif verdict == "form":
+        ok = False
+        ctx.violation(f"choi_to_kraus: form of the result differs from the documented one ({detail})", minfo)
+    elif verdict in ("values", "uncaptured") and ok:
+        # the returned operators satisfy the defining relation (judged above) but are not the ones the modelled post-processing
+        # produces from the LAPACK factors: the property is not violated on this input, the tie model <-> code is
+        ctx.broken.append(f"choi_to_kraus no longer assembles its result as modelled (choiToKraus, Toq/Model/ChannelOpsExtra.lean): {detail}")
     # the returned operators act like the Choi matrix on a random input (both through apply_channel)
     if min(J.shape) >= 2:
         X = gint(rng, (di0, di1), True)
@@ -483,7 +658,7 @@ def check_chain(ctx, din, dout, r, cp, cplx, seed=None):
         obj = [[a, gint(rng, (do1, di1), cplx, 3)] for a in As]
     desc = {"fn": "chain", "din": list(din), "dout": list(dout), "rank": r, "kind": kind, "complex": cplx}
     ctx.case(desc, di0 * di1 > 1 and do0 * do1 > 1, f"chain/{kind}")
-    info = {"case_seed": seed, "function": "kraus_to_choi/choi_to_kraus chain", "args": desc, "phi": jkraus(obj), "theorem": "kraus_of_choi_reproduces"}
+    info = {"case_seed": seed, "function": "kraus_to_choi/choi_to_kraus chain", "args": desc, "phi": jkraus(obj), "theorem": "krausToChoi_of_reproduces / kraus_of_choi_reproduces"}
     pobj = present_obj(prng, obj)
     guard = Pure(pobj)
     J1 = call(kraus_to_choi, pobj)
@@ -717,6 +892,10 @@ def run(ctx, model_ok=True):
     check_partial(ctx, (2, 3), (2, 3), 1, (2, 2), 2, "choi", True)
     check_partial(ctx, (2, 3, 2), (3, 2, 2), 2, (1, 2), 2, "choi", True, "two")
     check_partial(ctx, (3, 3), (3, 3), 2, (3, 3), 2, "pairs", True, "none", True)
+    check_partial(ctx, (2, 2), (3, 3), 1, (2, 3), 1, "pairs", True, "none")          # rho 4x9, dim omitted (reported corner, fixed in f134012)
+    check_partial(ctx, (2, 2), (3, 3), 2, (2, 3), 1, "pairs", True, "none", True)
+    check_partial(ctx, (3, 3), (2, 2), 2, (1, 2), 2, "choi", True, "none")           # rho 9x4, Choi form
+    check_partial(ctx, (2, 2), (4, 4), 1, (3, 2), 2, "choi", True, "none")           # rho 4x16
     # ---- apply_channel / kraus_to_choi / Choi form: all (d_in, d_out, rank) classes
     if quick:
         grid = []
@@ -813,6 +992,15 @@ def run(ctx, model_ok=True):
         form = forms[it % 5]
         r = 3 if form == "row" else int(rng.integers(1, 4))
         check_partial(ctx, (d, d), (d, d), 2 if it % 2 else 1, (d, d) if it % 3 else (2, 2), r, form, True, "none", bool(it % 2))
+    # default dim on NON-square operators (rows and cols perfect squares): dim=None means [[sqrt rows]*2, [sqrt cols]*2]; pairs and Choi form, sys 1 and 2
+    #   (fixed: f134012 -- before, the default was the 1-d array [sqrt rows, sqrt cols] and the call raised)
+    shapes = [(2, 3), (3, 2), (2, 4), (4, 2), (3, 4), (4, 3)]
+    for it in range(36 if quick else 360):
+        a, b = shapes[it % 6]
+        form = "pairs" if (it // 6) % 2 == 0 else "choi"
+        sys = 1 + (it // 12) % 2
+        dout = (int(rng.integers(1, 4)), int(rng.integers(1, 4))) if it % 5 else (a, b)
+        check_partial(ctx, (a, a), (b, b), sys, dout, int(rng.integers(1, 4)), form, bool(rng.integers(4)), "none", sys == 2 and bool(it % 2))
     # ---- natural_representation
     for it in range(150 if quick else 2000):
         check_natural(ctx, int(rng.integers(1, 5)), int(rng.integers(1, 5)), int(rng.integers(1, 6)), bool(rng.integers(4)))
@@ -833,7 +1021,8 @@ def run(ctx, model_ok=True):
             opts = [o for o in opts if o != "none"]
         dim_form = str(rng.choice(opts))
         check_channel_dim(ctx, din, dout, r, form, dim_form, bool(rng.integers(4)), mismatch=(dim_form != "none" and rng.integers(6) == 0))
-    ctx.extra["tolerances"] = {"exact paths": 0, "choi_to_kraus residual": "1e-8*max(1,|J|max)", "chain": "1e-8*max(1,|J|max)"}
+    ctx.extra["tolerances"] = {"exact paths": 0, "choi_to_kraus residual": "1e-8*max(1,|J|max)", "chain": "1e-8*max(1,|J|max)",
+                               "choi_to_kraus operators vs model (same LAPACK factors)": "1e-12*max(1,|entry|max)"}
 
 
 def replay(ctx, rec):
